@@ -1,6 +1,6 @@
 # table consumed by tools_manifest.py
 ENGINES = [
-    {"name": "vv", "path": "vv/", "serves_properties": ["C13"], "kind_free_text": "runtime monitors: generators, independent flatbuffer reader/writer, compile drivers, sharded worker harness, evidence/findings"},
+    {"name": "vv", "path": "vv/", "serves_properties": ["C13", "C19"], "kind_free_text": "runtime monitors: generators, independent flatbuffer reader/writer, compile drivers, sharded worker harness, evidence/findings"},
 ]
 NOTES = ("Technique family: runtime monitoring and sanitizers. Every check runs the real code from /repo's working tree (codec rebuilt from the C "
          "sources on every run) under generated workloads with oracles observing executions; verdicts are violated / held-on-what-was-observed / "
@@ -13,3 +13,12 @@ check("C13", "exploration",
       "Models are structurally valid by construction (independent writer, re-parsed by an independent reader); generator families bound what is reached; "
       "wall-clock watchdogs are inconclusive.",
       "runtime outcome monitor (CLI exit status/stdout/stderr/files) over generated hostile models", "DESIGN.md 4/C13")
+
+check("C19", "exploration",
+      "Reference-model monitor: (A) every fp_math helper is driven with Python ints and NumPy int8/16/32/64 scalars (boundary-biased, exhaustive int8 pairs, "
+      "int16 x all shifts) against exact gemmlowp ports in unbounded ints - exceptions and NumPy warnings count as mismatches; (B) 8-bit activation tables "
+      "captured by a hook on lut.create_lut_tensor during real compilations and read back from the output flash tensor, against a 60-digit real-function oracle "
+      "(sigmoid/tanh) and the TFLite fixed-point kernels (leaky-relu, hard-swish); (C) QUANTIZE constant folding observed at the rewrite vs the reference kernel.",
+      "Oracles are my own ports of gemmlowp/TFLite kernels; leaky-relu and hard-swish oracles are set-valued (float32- or float64-derived multipliers, or the "
+      "correctly rounded real function); quantisation parameters are sampled.",
+      "reference-model runtime monitor on hooked functions and direct drive", "DESIGN.md 4/C19")
